@@ -17,56 +17,14 @@ HERE = os.path.dirname(os.path.abspath(__file__))
 VERIF = os.path.dirname(HERE)
 
 
-def tdiv(n, d):
-    q = abs(n) // abs(d)
-    return q if (n >= 0) == (d > 0) else -q
+sys.path.insert(0, HERE)
+import stdspecs  # noqa: E402
 
-
-I16 = (-(2**15), 2**15 - 1)
-I64 = (-(2**63), 2**63 - 1)
 I128 = (-(2**127), 2**127 - 1)
-
-
-def sat(v, rng):
-    return max(rng[0], min(rng[1], v))
-
-
-# name -> (rust type of args, rust call template, precondition(args), expected(args))
-AUDIT = {
-    "u64::div_euclid": (("u64", "u64"), "{0}.div_euclid({1})", lambda a, b: b != 0, lambda a, b: a // b),
-    "u64::rem_euclid": (("u64", "u64"), "{0}.rem_euclid({1})", lambda a, b: b != 0, lambda a, b: a % b),
-    "i128::div_euclid": (("i128", "i128"), "{0}.div_euclid({1})", lambda a, b: b > 0, lambda a, b: a // b),
-    "i128::rem_euclid": (("i128", "i128"), "{0}.rem_euclid({1})", lambda a, b: b != 0 and not (a == I128[0] and b == -1), lambda a, b: a % abs(b)),
-    "i16::saturating_sub": (("i16", "i16"), "{0}.saturating_sub({1})", lambda a, b: True, lambda a, b: sat(a - b, I16)),
-    "i16::saturating_abs": (("i16",), "{0}.saturating_abs()", lambda a: True, lambda a: I16[1] if a == I16[0] else abs(a)),
-    "i64::unsigned_abs": (("i64",), "{0}.unsigned_abs()", lambda a: True, lambda a: abs(a)),
-    "i16::abs": (("i16",), "{0}.abs()", lambda a: a != I16[0], lambda a: abs(a)),
-    "i64::abs": (("i64",), "{0}.abs()", lambda a: a != I64[0], lambda a: abs(a)),
-    "i128::is_negative": (("i128",), "({0}.is_negative() as i128)", lambda a: True, lambda a: int(a < 0)),
-    "i16::is_negative": (("i16",), "({0}.is_negative() as i128)", lambda a: True, lambda a: int(a < 0)),
-    "i128::saturating_mul": (("i128", "i128"), "{0}.saturating_mul({1})", lambda a, b: True, lambda a, b: sat(a * b, I128)),
-    "i128::saturating_div": (("i128", "i128"), "{0}.saturating_div({1})", lambda a, b: b != 0, lambda a, b: I128[1] if (a == I128[0] and b == -1) else tdiv(a, b)),
-    "<i128ascore::convert::From<u64>>::from": (("u64",), "i128::from({0})", lambda a: True, lambda a: a),
-    "<i64ascore::convert::From<u8>>::from": (("u8",), "i64::from({0})", lambda a: True, lambda a: a),
-    "<i64ascore::convert::From<u16>>::from": (("u16",), "i64::from({0})", lambda a: True, lambda a: a),
-    "<i64ascore::convert::From<u32>>::from": (("u32",), "i64::from({0})", lambda a: True, lambda a: a),
-    "<i128ascore::convert::From<u32>>::from": (("u32",), "i128::from({0})", lambda a: True, lambda a: a),
-    "i16::signum": (("i16",), "{0}.signum()", lambda a: True, lambda a: (a > 0) - (a < 0)),
-    "i16::checked_neg": (("i16",), "{0}.checked_neg().map(|v| v as i128).unwrap_or(99999)", lambda a: True, lambda a: 99999 if a == I16[0] else -a),
-    "u8::rem_euclid": (("u8", "u8"), "{0}.rem_euclid({1})", lambda a, b: b != 0, lambda a, b: a % b),
-    "i8::rem_euclid": (("i8", "i8"), "{0}.rem_euclid({1})", lambda a, b: b > 0, lambda a, b: a % b),
-    "i64::rem_euclid": (("i64", "i64"), "{0}.rem_euclid({1})", lambda a, b: b > 0, lambda a, b: a % b),
-    "i64::div_euclid": (("i64", "i64"), "{0}.div_euclid({1})", lambda a, b: b > 0, lambda a, b: a // b),
-    "i32::div_euclid": (("i32", "i32"), "{0}.div_euclid({1})", lambda a, b: b > 0, lambda a, b: a // b),
-    "i32::rem_euclid": (("i32", "i32"), "{0}.rem_euclid({1})", lambda a, b: b > 0, lambda a, b: a % b),
-    "u32::rem_euclid": (("u32", "u32"), "{0}.rem_euclid({1})", lambda a, b: b != 0, lambda a, b: a % b),
-}
-
-AUDIT["<OrderingasPartialEq>::eq"] = (("ord", "ord"), "(({0} == {1}) as i128)", lambda a, b: True, lambda a, b: int(a == b))
+AUDIT = {"".join(e["name"].split()): (e["tys"], e["call"], e["pre"], e["exp"]) for e in stdspecs.entries()}
 ORD = {-1: "core::cmp::Ordering::Less", 0: "core::cmp::Ordering::Equal", 1: "core::cmp::Ordering::Greater"}
 
-RANGES = {"u8": (0, 255), "i8": (-128, 127), "u16": (0, 65535), "i16": I16, "u32": (0, 2**32 - 1), "i32": (-(2**31), 2**31 - 1),
-          "u64": (0, 2**64 - 1), "i64": I64, "i128": I128}
+RANGES = {t: stdspecs.rng(t) for t in list(stdspecs.SIGNED) + list(stdspecs.UNSIGNED)}
 
 
 def grid(ty):
@@ -90,17 +48,19 @@ def targets_in_specs():
 
 
 def main():
-    found = targets_in_specs()
+    found = targets_in_specs() | set(AUDIT)
     missing = found - set(AUDIT)
     if missing:
         print(f"audit_std: assumed std specifications without an audit entry: {sorted(missing)}", file=sys.stderr)
         return 2
     lines = ["fn main() {"]
     cases = []
-    for name in sorted(found):
+    decls = []
+    for k, name in enumerate(sorted(found)):
         tys, tmpl, pre, exp = AUDIT[name]
         grids = [grid(t) for t in tys]
         combos = [(a,) for a in grids[0]] if len(tys) == 1 else [(a, b) for a in grids[0] for b in grids[1]]
+        rows = []
         for args in combos:
             if not pre(*args):
                 continue
@@ -110,15 +70,18 @@ def main():
                     lits.append(ORD[v])
                     continue
                 lo, hi = RANGES[t]
-                lits.append(f"({t}::MIN)" if v == lo and lo < 0 else f"({v}{t})")
-            idx = len(cases)
+                lits.append(f"{t}::MIN" if v == lo and lo < 0 else f"{v}{t}")
+            rows.append("(" + ", ".join(lits) + ("," if len(lits) == 1 else "") + ")")
             cases.append((name, args, exp(*args)))
-            lines.append(f'    println!("{idx}|{{}}", ({tmpl.format(*lits)}) as i128);')
+        rty = "(" + ", ".join("core::cmp::Ordering" if t == "ord" else t for t in tys) + ("," if len(tys) == 1 else "") + ")"
+        decls.append(f"static C{k}: [{rty}; {len(rows)}] = [{', '.join(rows)}];")
+        call = tmpl.format("c.0", "c.1")
+        lines.append(f'    for c in C{k}.iter() {{ println!("{{}}", ({call}) as i128); }}')
     lines.append("}")
     with tempfile.TemporaryDirectory() as td:
         src = os.path.join(td, "audit.rs")
-        open(src, "w").write("#![allow(overflowing_literals, unused_parens, arithmetic_overflow)]\n" + "\n".join(lines) + "\n")
-        p = subprocess.run(["rustc", "-O", "-o", os.path.join(td, "audit"), src], capture_output=True, text=True)
+        open(src, "w").write("#![allow(overflowing_literals, unused_parens, arithmetic_overflow)]\n" + "\n".join(decls) + "\n" + "\n".join(lines) + "\n")
+        p = subprocess.run(["rustc", "-C", "opt-level=0", "-C", "overflow-checks=off", "-C", "debuginfo=0", "-o", os.path.join(td, "audit"), src], capture_output=True, text=True)
         if p.returncode != 0:
             print("audit_std: cannot compile audit program:\n" + p.stderr[-3000:], file=sys.stderr)
             return 2
@@ -127,10 +90,15 @@ def main():
             print("audit_std: audit program failed:\n" + out.stderr[-2000:], file=sys.stderr)
             return 2
     bad = 0
-    for ln in out.stdout.splitlines():
-        i, v = ln.split("|")
-        name, args, want = cases[int(i)]
+    outl = out.stdout.splitlines()
+    if len(outl) != len(cases):
+        print(f"audit_std: {len(outl)} results for {len(cases)} cases", file=sys.stderr)
+        return 2
+    for i, v in enumerate(outl):
+        name, args, want = cases[i]
         got = int(v)
+        if want > I128[1]:
+            want -= 2**128
         # results of unsigned 64-bit functions were cast through i128 and keep their value
         if got != want:
             bad += 1
